@@ -5,7 +5,7 @@ CONSTANTS
   FlagSet = {0,3}
   MaxUnique = 3
   Uids = {0}
-  Ops = {"names", "close", "send"}
+  Ops = {"names", "close", "send", "full"}
   LimNames = 3
   LimMatch = 2
   LimReplies = 2
@@ -17,5 +17,5 @@ CONSTANTS
   SendFl = {0}
 VIEW View
 INVARIANTS TypeOK QueueNoDup OnlyActiveQueued ReservedNamesNeverOwned NamesWithinLimit UniqueNamesDistinct UniqueNamesRecorded SenderIsOrigin RulesWithinLimit PendWithinLimit NoRulesForAbsent PendWellFormed AtMostOneCopy OnlyLiveRecipients ErrorXorDelivery CompletedWithinLimit PerUserWithinLimit
-PROPERTIES OwnerChangeSignalled UniqueNeverReused RefusalChangesNothing UnicastToOwnerOnly BroadcastOnlyToMatching SlotOnlyForDeliveredCall NoReplyOnlyOnExpiry
+PROPERTIES RefusedCallLeavesNoSlot OwnerChangeSignalled UniqueNeverReused RefusalChangesNothing UnicastToOwnerOnly BroadcastOnlyToMatching SlotOnlyForDeliveredCall NoReplyOnlyOnExpiry
 CHECK_DEADLOCK FALSE
